@@ -18,10 +18,11 @@ func init() {
 		r.floor("R4", 1)
 	}, checkC10)
 	register("C13", func(r *Report) {
-		r.Explanation = "Decides the no-leak / join / close structure for every termination cause: (R1) the session function joins its goroutines: every return reachable after the first goroutine was spawned passes the group's Wait, and a cancel of a context the group derives from is deferred before the first spawn; (R2) cancellation discipline: every blocking select and bare channel receive in package gateway and util.ConnWithContext has a case on a context's or transaction's Done(), every such context derives from the session/function context (never from context.Background() inside a session goroutine), ConnWithContext.Read/Write re-check the context in every retry iteration (no cycle avoids the check) and set the deadline before each attempt; (R3) the receive loops return the error of ReadPacket and of the dispatcher (context.Canceled -> nil; io.EOF -> sentinel/ErrMqttConnClosed): no path from a failed read or dispatch back to the loop head; (R4) the shutdown goroutine sends DISCONNECT exactly when the state is Active or Awake, and the plain-DISCONNECT path sets Disconnected before returning the clean-shutdown sentinel (so no second DISCONNECT); (R5) the broker connection is closed on every exit after the dial (C10-R4); (R6) the context of the client connection's wrapper is rooted at context.Background() and cancelled only after the shutdown goroutine's last send, so the DISCONNECT sent on session end is really written. Not decided: the numeric bound; OS-level blocking inside net.Conn."
+		r.Explanation = "Decides the no-leak / join / close structure for every termination cause: (R1) the session function joins its goroutines: every return reachable after the first goroutine was spawned passes the group's Wait, and a cancel of a context the group derives from is deferred before the first spawn; (R2) cancellation discipline: every blocking select and bare channel receive in package gateway and util.ConnWithContext has a case on a context's or transaction's Done(), every such context derives from the session/function context (never from context.Background() inside a session goroutine), ConnWithContext.Read/Write re-check the context in every retry iteration (no cycle avoids the check) and set the deadline before each attempt; (R3) the receive loops return the error of ReadPacket and of the dispatcher (context.Canceled -> nil; io.EOF -> sentinel/ErrMqttConnClosed): no path from a failed read or dispatch back to the loop head; (R4) the shutdown goroutine sends DISCONNECT exactly when the state is Active or Awake, and the plain-DISCONNECT path sets Disconnected before returning the clean-shutdown sentinel (so no second DISCONNECT); (R5) the broker connection is closed on every exit after the dial (C10-R4); (R6) the context of the client connection's wrapper is rooted at context.Background() and cancelled only after the shutdown goroutine's last send, so the DISCONNECT sent on session end is really written; (R7) every goroutine of the session's errgroup observes the group's context, or a context that a member waiting for the group context cancels. Not decided: the numeric bound; OS-level blocking inside net.Conn."
 		r.floor("R1", 1)
 		r.floor("R2", 5)
 		r.floor("R6", 1)
+		r.floor("R7", 2)
 		r.floor("R3", 2)
 		r.floor("R4", 4)
 	}, checkC13)
@@ -644,6 +645,8 @@ func checkC13(c *Ctx, r *Report) {
 	}
 	c.checkBrokerConnClosed(r, "R5")
 	c.checkSnConnContext(r, run)
+	// R7: every member of the session's errgroup observes the group context (or a context a waiting member cancels)
+	c.checkGroupContexts(r, "R7", "gateway")
 }
 
 // checkSnConnContext: R6 of C13. The shutdown goroutine sends the DISCONNECT
